@@ -435,15 +435,16 @@ class PeaksKind(Kind):
     name = 'find_peaks'
     header = HDR_P
     case_type = 'pk_case'
-    check_fn = 'pk_check'
+    check_fn = 'pk_check'          # property clauses only, on the observed result
+    corr_fn = 'pk_corr'            # equality with the repaired scan of the model (tie-breaking is not part of the property)
     explain_fn = 'pk_expected'
     shard = 400
     rule = ('find_peaks(data, d, h): EVERY 1-D signal of length 0..7 (quick) / 0..9 (thorough) over a 3-value alphabet x every '
             'distance 0..len+1 x heights {-inf, below, each value, between, above, +inf}; 4-value alphabet sampled (quick) / every signal of '
             'length 0..8 (thorough); plateaus, ties, '
             'peaks at both ends and every last sample are all in that block; random signals of length 10..80 with random distances '
-            'and heights (int and float dtypes); the D10 regression signal; checked: candidates only, ascending and >= d apart, every '
-            'dropped candidate dominated, equality with the repaired scan; non-trivial = at least two candidates and d >= 2')
+            'and heights (int and float dtypes); the D10 regression signal; check_fn: candidates only, ascending and >= d apart, every '
+            'dropped candidate dominated (property level); corr_fn: equality with the repaired scan (correspondence level); non-trivial = at least two candidates and d >= 2')
 
     def gen(self, rng, tier):
         heights3 = ['-inf', 1, 2, 3, 4, 5, '+inf']          # numerators over den = 2 : data values 0, 1, 2 are 0, 2, 4
